@@ -373,6 +373,17 @@ def rule_activation_identity(ck):
             names = [g.call_at(b).name for b in region if g.call_at(b) is not None]
             removes = [n for n in names if n.endswith("remove_watchpoint_by_number")]
             frame_facts = [n for n in names if n.endswith(("::get_cfa", "::current_cfa", "Debugger::backtrace", "Debugee::unwind"))]
+            # one level of helpers: a function called on this arm that itself takes the frame address
+            CFA = {"debugger::debugee::dwarf::DebugInformation::get_cfa"}
+            for b in region:
+                c = g.call_at(b)
+                if c is not None and c.name.startswith("debugger::") and prog.call_reaches(c, CFA, depth=3) and not c.name.endswith("remove_watchpoint_by_number"):
+                    frame_facts.append(c.name)
+                    # and that helper must dominate the removal
+            rm_blocks = [b for b in region if g.call_at(b) is not None and g.call_at(b).name.endswith("remove_watchpoint_by_number")]
+            ff_blocks = [b for b in region if g.call_at(b) is not None and (g.call_at(b).name in frame_facts)]
+            if rm_blocks and ff_blocks and not all(any(g.dominates(fb, rb) for fb in ff_blocks) for rb in rm_blocks):
+                frame_facts = []
             ok = bool(removes) and bool(frame_facts)
             d = f"{len(removes)} removal(s), frame facts consulted: {[n.split('::')[-1] for n in frame_facts]}"
         ck.ob("kind.activation_identity", "end_of_scope/removal-checks-activation", ok, d, g.loc(), what="the scope end reached by a deeper activation (recursion) or by another thread removes the watchpoint while the watched variable is still live")
